@@ -603,3 +603,57 @@ func resolveLocalValue(v ssa.Value) ssa.Value {
 	}
 	return v
 }
+
+// allSources: every source of v (through conversions, phis and single-function locals) satisfies
+// pred; arithmetic or any other producer is a failing source.
+func allSources(v ssa.Value, pred func(ssa.Value) bool) bool {
+	seen := map[ssa.Value]bool{}
+	var walk func(x ssa.Value, depth int) bool
+	walk = func(x ssa.Value, depth int) bool {
+		x = unwrap(x)
+		if seen[x] {
+			return true
+		}
+		seen[x] = true
+		if depth > 12 {
+			return false
+		}
+		if pred(x) {
+			return true
+		}
+		switch t := x.(type) {
+		case *ssa.Phi:
+			for _, e := range t.Edges {
+				if !walk(e, depth+1) {
+					return false
+				}
+			}
+			return len(t.Edges) > 0
+		case *ssa.UnOp:
+			if t.Op == token.MUL {
+				if al, ok := t.X.(*ssa.Alloc); ok {
+					st := capturedStores(al)
+					for _, sv := range st {
+						if !walk(sv, depth+1) {
+							return false
+						}
+					}
+					return len(st) > 0
+				}
+			}
+		case *ssa.Slice:
+			// the varargs array of append(xs, a, b): its elements
+			if al, ok := t.X.(*ssa.Alloc); ok {
+				sts := storedThrough(al)
+				for _, st := range sts {
+					if !walk(st.Val, depth+1) {
+						return false
+					}
+				}
+				return len(sts) > 0
+			}
+		}
+		return false
+	}
+	return walk(v, 0)
+}
